@@ -138,7 +138,7 @@ def t_fresh_escaping(ck, ctx):
 # T-RESET (a): lexer flags are reset before every statement
 # ---------------------------------------------------------------------------
 
-def t_reset_lexer(ck, ctx):
+def t_reset_lexer(ck, ctx, only=None, channels=False):
     m, cg = ctx.model, ctx.callgraph
     eff = effects_of(ctx)
     reset = m.parser_method("set_default_flags_in_lexer")
@@ -169,8 +169,11 @@ def t_reset_lexer(ck, ctx):
                 attr = a.path.split(".")[2]
                 touched.setdefault(attr, []).append((f, a))
     for attr in sorted(touched):
+        if only is not None and attr not in only:
+            continue
         acc = touched[attr]
         writers = [(f, a) for f, a in acc if a.kind in ("store", "mutate", "del") and f.id != reset.id]
+        writers_in_scope = [(f, a) for f, a in writers if f.id in scope_ids]
         readers_in_scope = [(f, a) for f, a in acc if a.kind in ("load", "mutate") and f.id in scope_ids]
         if not writers:
             continue            # owned by PLY (lineno, lexpos ...) or read-only
@@ -178,14 +181,21 @@ def t_reset_lexer(ck, ctx):
             ck.ob("T-RESET.lexer", f"lexer.{attr}", True, "written in the package and reset before every statement",
                   writers[0][0].loc(writers[0][1].node))
             continue
-        if readers_in_scope:
-            wf, wa = writers[0]
+        if writers_in_scope and readers_in_scope:
+            wf, wa = writers_in_scope[0]
             rf, ra = readers_in_scope[0]
             ck.ob("T-RESET.lexer", f"lexer.{attr}", False,
-                  f"self.lexer.{attr} is written in {wf.qual} and read while parsing a statement in {rf.qual}, but "
-                  f"{reset.qual} does not reset it: its value leaks from one statement (or run) to the next",
+                  f"self.lexer.{attr} is written while a statement is parsed ({wf.qual}) and read in {rf.qual}, but "
+                  f"{reset.qual} does not reset it: its value leaks from one statement to the next",
                   rf.loc(ra.node))
-        else:
+        elif readers_in_scope and channels:
+            wf, wa = writers[0]
+            rf, ra = readers_in_scope[0]
+            ck.ob("T-CHANNEL", f"lexer.{attr}", False,
+                  f"self.lexer.{attr} is computed from the whole script in {wf.qual} and read while parsing each statement "
+                  f"in {rf.qual}: the outcome of a statement depends on what other statements of the script contain",
+                  rf.loc(ra.node))
+        elif not readers_in_scope:
             ck.ob("T-RESET.lexer", f"lexer.{attr}", True, "written but never read in statement scope",
                   writers[0][0].loc(writers[0][1].node))
     return reset_set
